@@ -199,19 +199,32 @@ def decode_track_rows(tbl, size_of, mode, problems):
 
 
 # ----------------------------------------------------------------------------------------------- judgement
+def sig(base, kind, tag):
+    """tag marks a region of the scope that fails as a whole for one reason: those cases share one signature"""
+    return "%s%s" % (base, tag) if tag else "%s:%s" % (base, kind)
+
+
 def judge(col, base, case, G, ignored, groups, outcome, tag="", flat=False, zero_rows_elided=False):
     """outcome: ('raised', exc name, text) | ('done', [(label|None, [uids])], problems)"""
     Gn = [g for g, _ in G]
+    if tag:
+        base = base.split(":")[0].split(".")[0]
     entries = entries_of(groups)
     m = model(Gn, ignored, [nm for nm, _ in groups])
     if m[0] == "error":
         ok = outcome[0] == "raised"
-        col.check(ok, "%s:no-error:%s:%s%s" % (base, m[1], m[2], tag), case,
+        if m[2] == "late" and base.endswith(":zip"):
+            # one reason for the whole region (the generator is not resumed after the last contig): one signature per
+            # entry point and kind, whatever the observer / input form
+            base = base.split(":")[0].split(".")[0] + ":zip"
+        col.check(ok, sig(base, "no-error:%s:%s" % (m[1], m[2]), tag), case,
                   "data groups %r against genome %r (ignored %r) must raise; completed with %r"
                   % ([g for g, _ in groups], Gn, sorted(ignored), outcome[1] if not ok else None))
         return ok
     if outcome[0] == "raised":
-        col.fail("%s:spurious-error:%s%s" % (base, outcome[1], tag), case,
+        if base.startswith("genome_api."):  # one cause shows through every observer: entry point + input form + exception
+            base = "genome_api:" + base.split(":")[1]
+        col.fail(sig(base, "spurious-error:" + outcome[1], tag), case,
                  "valid input (groups %r, genome %r) raised %s" % ([g for g, _ in groups], Gn, outcome[2]))
         return False
     got, problems = outcome[1], outcome[2]
@@ -222,18 +235,18 @@ def judge(col, base, case, G, ignored, groups, outcome, tag="", flat=False, zero
         exp = [(g, us) for g, us in exp if us]
     ok = True
     if problems:
-        ok = col.check(False, "%s:malformed-output%s" % (base, tag), case, "; ".join(problems[:3])) and ok
+        ok = col.check(False, sig(base, "malformed-output", tag), case, "; ".join(problems[:3])) and ok
     if len(got) != len(exp):
-        col.fail("%s:wrong-output-count%s" % (base, tag), case, "got %d outputs %r, expected %d %r" % (len(got), got, len(exp), exp))
+        col.fail(sig(base, "wrong-output-count", tag), case, "got %d outputs %r, expected %d %r" % (len(got), got, len(exp), exp))
         return False
     all_got = sorted(u for _, us in got for u in us)
     all_exp = sorted(u for _, us in exp for u in us)
     if all_got != all_exp:
-        col.fail("%s:entries-lost-or-duplicated%s" % (base, tag), case, "got %r expected %r" % (got, exp))
+        col.fail(sig(base, "entries-lost-or-duplicated", tag), case, "got %r expected %r" % (got, exp))
         return False
     for (gl, gu), (el, eu) in zip(got, exp):
         if gu != eu or (gl is not None and el is not None and gl != el):
-            col.fail("%s:misattributed%s" % (base, tag), case, "got %r expected %r" % (got, exp))
+            col.fail(sig(base, "misattributed", tag), case, "got %r expected %r" % (got, exp))
             return False
     return ok
 
@@ -399,7 +412,8 @@ def eval_similarity(col, case, tmp=None):
     ma, mb = model(Gn, set(), [g for g, _ in ga]), model(Gn, set(), [g for g, _ in gb])
     for which, m in (("a", ma), ("b", mb)):
         if m[0] == "error":
-            return col.check(out[0] == "raised", "%s:%s:no-error:%s:%s" % (base, which, m[1], m[2]), case,
+            sbase = "similarity" if (which == "b" and m[2] == "late") else base  # operand b is the one zipped behind a
+            return col.check(out[0] == "raised", "%s:%s:no-error:%s:%s" % (sbase, which, m[1], m[2]), case,
                              "operand %s groups %r against %r must raise; returned %r" % (which, case[which + "_groups"], Gn, out[1]))
     if out[0] == "raised":
         col.fail("%s:spurious-error:%s" % (base, out[1]), case, out[2])
@@ -558,24 +572,60 @@ def group_variants(seq, rich):
         yield [[nm, k] for nm, k in zip(seq, pat)]
 
 
-def enumerate_cases(tier):
-    thorough = tier != "quick"
-    full_upto = 6 if thorough else 4
-    maxn = 4
-    # ---- A: iter_chromosomes
+def dedupe(lists):
+    out = []
+    for x in lists:
+        if x not in out:
+            out.append(x)
+    return out
+
+
+def plans(seq, Gn, ignored, thorough, full_upto):
+    """-> (index, groups, chunkings).  Sequences the genome accepts: group sizes {1,2}^k for k <= 2 (thorough: k <= 3), else
+    all-ones and a 2 at either end, x every composition of N <= full_upto entries (boundary chunkings above).
+    Rejected sequences: two (thorough: three) size patterns x {one chunk, singletons (thorough: + every 2-split)} - chunks are
+    merged before the order is looked at, so the product is thinned there and not on the accepted side."""
+    k = len(seq)
+    valid = model(Gn, ignored, seq)[0] == "ok"
+    if valid:
+        pats = size_patterns(k, thorough and k <= 3)
+    elif thorough:
+        pats = dedupe([tuple([1] * k), tuple([2] + [1] * (k - 1)) if k else (), tuple([1] * (k - 1) + [2]) if k else ()])
+    else:
+        pats = dedupe([tuple([1] * k), tuple([2] + [1] * (k - 1)) if k else ()])
+    for gi, pat in enumerate(pats):
+        groups = [[nm, c] for nm, c in zip(seq, pat)]
+        N = sum(pat)
+        if valid:
+            chs = chunkings(N, full_upto)
+        elif N == 0:
+            chs = [[]]
+        elif thorough:
+            chs = dedupe([[N], [1] * N] + [[i, N - i] for i in range(1, N)])
+        else:
+            chs = dedupe([[N], [1] * N])
+        yield gi, groups, chs
+
+
+def cases_iter_chromosomes(thorough, full_upto):
     for gcfg in GCFGS:
-        for n in range(1, maxn + 1):
+        for n in range(1, 5):
             if gcfg == "sorted" and n == 1:
                 continue
-            if not thorough and n == 4 and gcfg in ("ignM", "ign_", "inc_", "sorted"):
-                maxlen = 3
-            else:
-                maxlen = None
+            maxlen = None
+            if not thorough:
+                if gcfg == "inc_" and n >= 3:
+                    maxlen = 2 if n == 3 else 1
+                elif gcfg != "plain" and n == 4:
+                    maxlen = 3
+            elif n == 4 and gcfg != "plain":
+                maxlen = {"ignM": 5, "ign_": 4, "sorted": None, "inc_": 3}[gcfg]
+            _, G, ignored = genome_layout(gcfg, n)
+            Gn = [g for g, _ in G]
             for seq in sequences(universe(gcfg, n), maxlen):
-                rich = thorough and len(seq) <= 3
-                for groups in group_variants(seq, rich):
+                for gi, groups, chs in plans(seq, Gn, ignored, thorough, full_upto):
                     N = sum(k for _, k in groups)
-                    for chunks in chunkings(N, full_upto):
+                    for chunks in chs:
                         for consumer in ("exhaust", "zip"):
                             yield {"contract": "iter_chromosomes", "gcfg": gcfg, "n": n, "groups": groups, "chunks": chunks,
                                    "input": "stream", "consumer": consumer}
@@ -583,14 +633,16 @@ def enumerate_cases(tier):
                         for consumer in ("exhaust", "zip"):
                             yield {"contract": "iter_chromosomes", "gcfg": gcfg, "n": n, "groups": groups, "chunks": [N],
                                    "input": "table", "consumer": consumer}
-    # ---- C: MultiStream
-    for n in range(1, maxn + 1):
-        for seq in sequences(NAMES[:n] + [UNKNOWN]):
-            for groups in group_variants(seq, thorough and len(seq) <= 3):
+
+
+def cases_multistream(thorough, full_upto):
+    for n in range(1, 5):
+        Gn = NAMES[:n]
+        for seq in sequences(Gn + [UNKNOWN]):
+            for gi, groups, chs in plans(seq, Gn, set(), thorough, full_upto):
                 N = sum(k for _, k in groups)
                 for si, sizes in enumerate(("dict", "chromsize", "seqsizes")):
-                    chs = chunkings(N, full_upto) if (si == 0 or thorough) else [[N]] if N else [[]]
-                    for chunks in chs:
+                    for chunks in (chs if (si == 0 or thorough) else chs[:1]):
                         for consumer in ("exhaust", "zip"):
                             yield {"contract": "multistream", "n": n, "groups": groups, "chunks": chunks, "input": "stream",
                                    "sizes": sizes, "consumer": consumer}
@@ -598,17 +650,22 @@ def enumerate_cases(tier):
                         for consumer in ("exhaust", "zip"):
                             yield {"contract": "multistream", "n": n, "groups": groups, "chunks": [N], "input": "table",
                                    "sizes": sizes, "consumer": consumer}
-    # ---- E: left_join
-    for n in range(1, maxn + 1):
-        for seq in sequences(NAMES[:n] + [UNKNOWN]):
-            for groups in group_variants(seq, False):
+
+
+def cases_left_join(thorough, full_upto):
+    for n in range(1, 5):
+        Gn = NAMES[:n]
+        for seq in sequences(Gn + [UNKNOWN]):
+            for gi, groups, chs in plans(seq, Gn, set(), thorough, full_upto):
                 N = sum(k for _, k in groups)
                 yield {"contract": "left_join", "n": n, "groups": groups, "chunks": [N] if N else [], "input": "pure"}
                 if N > 0:
                     yield {"contract": "left_join", "n": n, "groups": groups, "chunks": [N], "input": "table"}
-                for chunks in chunkings(N, full_upto if thorough else 3):
+                for chunks in chs:
                     yield {"contract": "left_join", "n": n, "groups": groups, "chunks": chunks, "input": "stream"}
-    # ---- F: groupby
+
+
+def cases_groupby(thorough, full_upto):
     for seq in sequences(GB_NAMES, 4 if thorough else 3):
         if not seq:
             continue
@@ -618,17 +675,40 @@ def enumerate_cases(tier):
                 yield {"contract": "groupby", "groups": groups, "chunks": [N], "input": "table", "keys": keys}
                 for chunks in chunkings(N, full_upto):
                     yield {"contract": "groupby", "groups": groups, "chunks": chunks, "input": "stream", "keys": keys}
-    # ---- B: Genome API
+
+
+def cases_genome_api(thorough, full_upto):
     for gcfg in GCFGS:
-        for n in range(1, (maxn if thorough else 3) + 1):
+        for n in range(1, (4 if thorough else 3) + 1):
             if gcfg == "sorted" and n == 1:
                 continue
-            for seq in sequences(universe(gcfg, n), None if (thorough or n < 3 or gcfg == "plain") else 3):
-                for gi, groups in enumerate(group_variants(seq, False)):
+            maxlen = None
+            if not thorough:
+                if gcfg == "inc_" and n >= 3:
+                    continue
+                if gcfg != "plain" and n == 3:
+                    maxlen = 3
+            elif n == 4 and gcfg != "plain":
+                maxlen = 2 if gcfg == "inc_" else 3
+            _, G, ignored = genome_layout(gcfg, n)
+            Gn = [g for g, _ in G]
+            for seq in sequences(universe(gcfg, n), maxlen):
+                for gi, groups, chs in plans(seq, Gn, ignored, thorough, min(full_upto, 4)):
                     N = sum(k for _, k in groups)
-                    chs = chunkings(N, 3 if not thorough else 4)
-                    if not thorough and gi > 0:
-                        chs = [[1] * N]
+                    ok = model(Gn, ignored, seq)[0] == "ok"
+                    if thorough and not ok:
+                        if gi > 1:
+                            continue
+                        chs = dedupe([[N], [1] * N]) if N else [[]]
+                    if not thorough:  # the observers are ~5x dearer than the bare generator: thin the chunkings further
+                        if gi > 0 and not ok:
+                            continue
+                        if N == 0:
+                            chs = [[]]
+                        elif gi == 0:
+                            chs = dedupe([[N], [1] * N] + chunkings(N, 3)) if ok else chs[-1:]
+                        else:
+                            chs = [[1] * N]
                     for observer in OBSERVERS:
                         for chunks in chs:
                             yield {"contract": "genome_api", "gcfg": gcfg, "n": n, "groups": groups, "chunks": chunks,
@@ -639,25 +719,44 @@ def enumerate_cases(tier):
                             if observer.startswith("intervals"):
                                 yield {"contract": "genome_api", "gcfg": gcfg, "n": n, "groups": groups, "chunks": [N],
                                        "input": "table_as_stream", "observer": observer}
-    # ---- D: forbes / jaccard
-    for n in range(1, (maxn if thorough else 3) + 1):
-        valid = [[[NAMES[p], 1 + (p % 2)] for p in range(n)], [[NAMES[n - 1], 2]]]
-        allseq = [s for s in sequences(NAMES[:n] + [UNKNOWN]) if s]
+
+
+def cases_similarity(thorough, full_upto):
+    for n in range(1, (4 if thorough else 3) + 1):
+        Gn = NAMES[:n]
+        valid_fixed = [[[NAMES[p], 1 + (p % 2)] for p in range(n)], [[NAMES[n - 1], 2]]]
+        allseq = [s for s in sequences(Gn + [UNKNOWN]) if s]
         for func in ("forbes", "jaccard"):
             for varied in ("a", "b"):
+                other = "b" if varied == "a" else "a"
                 for seq in allseq:
+                    ok = model(Gn, set(), seq)[0] == "ok"
                     for groups in group_variants(seq, False):
                         N = sum(k for _, k in groups)
-                        for fixed in valid:
+                        for fixed in (valid_fixed if (ok or thorough) else valid_fixed[:1]):
                             Nf = sum(k for _, k in fixed)
                             for chunks in ([[N], [1] * N] if N > 1 else [[N]]):
                                 case = {"contract": "similarity", "func": func, "n": n,
                                         "sizes": "dict" if len(chunks) == 1 else "chromsize"}
                                 case[varied + "_groups"], case[varied + "_chunks"], case[varied + "_input"] = groups, chunks, "stream"
-                                other = "b" if varied == "a" else "a"
                                 case[other + "_groups"], case[other + "_chunks"] = fixed, [Nf]
                                 case[other + "_input"] = "table" if len(chunks) == 1 else "stream"
                                 yield case
+
+
+def enumerate_cases(tier):
+    """round-robin over the contracts, so that a time-out thins every contract instead of dropping the last ones"""
+    thorough = tier != "quick"
+    full_upto = 6 if thorough else 4
+    gens = [g(thorough, full_upto) for g in (cases_iter_chromosomes, cases_genome_api, cases_multistream, cases_similarity,
+                                             cases_left_join, cases_groupby)]
+    while gens:
+        for g in list(gens):
+            case = next(g, None)
+            if case is None:
+                gens.remove(g)
+            else:
+                yield case
 
 
 def sampled_cases(tier, rng):
@@ -695,6 +794,15 @@ def sampled_cases(tier, rng):
                    "consumer": rng.choice(("exhaust", "zip"))}
 
 
+# evaluated first, so that the case recorded for the '_'-contig region is the silent drop and not a mere count mismatch
+WITNESSES = [
+    {"contract": "iter_chromosomes", "gcfg": "inc_", "n": 2, "groups": [["chr1", 1], [UNDERSCORE, 2]], "chunks": [3],
+     "input": "stream", "consumer": "exhaust"},
+    {"contract": "genome_api", "gcfg": "inc_", "n": 2, "groups": [["chr1", 1], [UNDERSCORE, 2]], "chunks": [3],
+     "input": "stream", "observer": "intervals.compute"},
+]
+
+
 def run(tier="quick", seed=0):
     thorough = tier != "quick"
     col = Collector("C12", tier, seed,
@@ -715,6 +823,8 @@ def run(tier="quick", seed=0):
                   "groupby_keys": ["StringArray", "EncodedArray(StringEncoding)"], "samples": 300 if not thorough else 4000}
     with TmpDir() as tmp:
         stop = False
+        for case in WITNESSES:
+            EVAL[case["contract"]](col, case, tmp)
         for case in enumerate_cases(tier):
             EVAL[case["contract"]](col, case, tmp)
             if col.evaluations % 64 == 0 and col.out_of_time():
